@@ -367,7 +367,7 @@ def check_c09(pid, tier, replay=None):
         except Exception as e:
             rrows, rerr = [], str(e)[:300]
         chk.oblige("translator: %d rolling-step programs -> Gen/RollStep.lean" % len(rrows), bool(rrows) and not rerr, rerr)
-        rthms = ["IsalVerif.GenProps.RollStep.all_canon", "IsalVerif.GenProps.RollStep.all_present", "IsalVerif.GenProps.RollStep.step_current",
+        rthms = ["IsalVerif.GenProps.RollStep.all_canon", "IsalVerif.GenProps.RollStep.all_present", "IsalVerif.GenProps.RollStep.step_current", "IsalVerif.GenProps.RollStep.scan_current", "IsalVerif.RollC.untilLoop_eq",
                  "IsalVerif.RollC.hashFn_eq", "IsalVerif.RollC.untilLoop_unfold", "IsalVerif.RollC.resetLoop_unfold",
                  "IsalVerif.RollC.canonTest_val"]
         rfailed = vlib.lean_obligations(chk, "IsalVerif.GenProps.RollStep", rthms) if rrows else [("gen_rollstep", rerr)]
